@@ -67,6 +67,20 @@ CLAIMED = {
    "tables outside the change set keep their stored CREATE text and rows including rowid. Both the in-place ALTER path and the new_<table> rebuild path are measured classes.",
    "Data-caused engine failures (unique/not-null/check/FK violations, STRICT type mismatches) are counted as rejected (13% in quick) and not judged; foreign-key child columns are populated with NULL. Values of columns whose declared type changed are outside the property.",
    "4/C05"),
+ "C04": ("exploration",
+   "exhaustive enumeration of FK graphs x table-role assignments + rapid PBT on larger graphs; oracle = reference catalogue replaying the planned SQL text under the database's FK rules",
+   "Every directed FK graph with self loops over n<=3 (quick) / n<=4 (thorough) tables x every assignment of tables to kept/created/dropped x MySQL and PostgreSQL planners x plan modes is diffed (DefaultDiff.SchemaDiff) and planned (DefaultPlan.PlanChanges); "
+   "random graphs over 5-8 tables with independent current/desired edge sets and two-column FKs on top. A reference catalogue parses each planned statement (CREATE TABLE .. REFERENCES, ADD CONSTRAINT, DROP FOREIGN KEY/CONSTRAINT, DROP TABLE) and enforces: "
+   "the referenced table exists when an FK is declared (self references allowed), a table is dropped only when no other table references it, nothing is created or dropped twice, and the final catalogue (tables + FK edges) equals the desired one; PlanChanges must return without error within a watchdog.",
+   "No MySQL/PostgreSQL engine is available offline: the reference catalogue stands in for the server's FK rules. Index statements are ignored (an FK's dependency on a unique index of the referenced table is outside this property).",
+   "4/C04"),
+ "C17": ("exploration",
+   "rapid PBT: up-then-down execution on a real SQLite engine (inverse/round-trip oracle with independent catalog comparison) + formatter down-section consistency against Plan.Changes[].ReverseStmts()",
+   "SQLite (current, desired) pairs biased to reversible plans are planned; when Plan.Reversible the statements are executed and then the reverse statements of the changes in reverse order; the harness' PRAGMA catalog before must equal after and Atlas' diff original<->result must be empty both ways. "
+   "For every plan: Reversible implies every change with a schema Source has a reverse statement. Down-file part: the same plans (indent '', two spaces, tab) are written with golang-migrate, goose, flyway, dbmate and liquibase formatters and the down section / rollback lines, "
+   "scanned with the statement scanner, must be exactly the reverse statements in (reverse) change order.",
+   "Engine execution is SQLite only. The down-file part currently uses SQLite plans; MySQL/PostgreSQL plans share the same formatter code path (dialect-independent templates). PRAGMA foreign_keys bookkeeping statements carry no reverse by design and are skipped on the way down.",
+   "4/C17"),
 }
 PENDING_REASON = "check not built yet in this session (planned in DESIGN.md section 4; will be claimed once its quick check is green and sensitivity-tested)"
 
